@@ -12,6 +12,7 @@ import vlib, apirec, pairs, refs
 
 PID = "C12"
 E = apirec.enc
+_HAIR = []
 
 
 def concrete(kind, rnd):
@@ -38,6 +39,17 @@ def concrete(kind, rnd):
         g = rnd.randrange(70, 190)
         a = rnd.choice([(0, 0, 0), (255, 255, 255)])
         return rnd.choice([(a, (g, g, g)), (pairs.hexs(a), pairs.hexs((g, g, g)))])
+    if kind == "twinA":        # == but different colours: int channels are 0..255, floats in [0,1] are normalised
+        return rnd.choice([((1, 1, 1), (1.0, 1.0, 1.0)), ((1, 1, 1), "#ffffff"), ((120, 1, 1), (255, 255, 255)), ((0, 1, 0), (1.0, 1.0, 1.0))])
+    if kind == "twinB":
+        return rnd.choice([((1.0, 1.0, 1.0), (1, 1, 1)), ((1.0, 1.0, 1.0), "#000000"), ((120.0, 1.0, 1.0), (0, 0, 0)), ((0.0, 1.0, 0.0), (1, 1, 1)),
+                           ((True, True, True), (1.0, 1.0, 1.0))])
+    if kind == "hairres":
+        if _HAIR:
+            t_, b_, lg_, vr_, m_ = rnd.choice(_HAIR)
+            return rnd.choice([(t_, b_), (pairs.hexs(t_), pairs.hexs(b_)), (f"rgb({t_[0]}, {t_[1]}, {t_[2]})", b_)])
+        a, b = pairs.hairline(rnd, 4.5)
+        return (a, b)
     if kind == "hsl":
         a, b = pairs.near_threshold(rnd, 4.5, (0.0, 0.3))
         return (pairs.spell(a, "hslfn", rnd), b)
@@ -84,12 +96,19 @@ def main():
                 "as enumerated by TLC from BulkLists.tla (quick: seeded sample) plus sampled lists of 4-12 entries, x mode x very_readable; "
                 "distinct = distinct (abstract list, mode, very_readable)")
     rep.add_model("MC_Api(Depth=4)", vlib.check_model("MC_Api", "MC_Api.cfg", timeout=900), "BulkMatchesMemo, InvalidInert on the API state machine")
+    global _HAIR
+    _HAIR = pairs.hairline_results(rnd, 2500 if t == "quick" else 40000)
+    rep.extra["pairs_whose_tuned_colour_lands_on_a_hairline"] = len(_HAIR)
     r, lists = vlib.tlc_enumerate("BulkLists", "MC_BulkLists.cfg", "lst")
     rep.add_model("BulkLists(MaxLen=3) input generator", r, "abstract bulk inputs replayed into the implementation")
     rep.extra["lists_enumerated_by_tlc"] = len(lists)
     n = 260 if t == "quick" else 7000
     chosen = [l for l in lists if len(l) <= 1] + rnd.sample([l for l in lists if len(l) >= 2], n)
-    kinds = ["pass", "fixable", "between", "unfixable", "badtext", "badbg", "translucent", "hsl", "extreme"]
+    # lists that certainly contain hash-equal twins / hairline results
+    twin = [l for l in lists if {"twinA", "twinB"} <= {e[0] for e in l}]
+    hair = [l for l in lists if any(e[0] == "hairres" for e in l)]
+    chosen += rnd.sample(twin, min(len(twin), 40 if t == "quick" else 600)) + rnd.sample(hair, min(len(hair), 60 if t == "quick" else 900))
+    kinds = ["pass", "fixable", "between", "unfixable", "badtext", "badbg", "translucent", "hsl", "extreme", "twinA", "twinB", "hairres"]
     for _ in range(30 if t == "quick" else 600):     # longer lists
         chosen.append(tuple((rnd.choice(kinds), rnd.choice((2, 3, 4))) for _ in range(rnd.randrange(4, 13))))
     jobs = [(l, k % 3, bool((k // 3) & 1), rnd.randrange(1 << 30)) for k, l in enumerate(chosen)]
